@@ -18,7 +18,7 @@ import (
 	"github.com/flamego/flamego/verifharness/internal/rt"
 )
 
-const rule = "case = a history: 0..5 registrations the statement obliges the router to accept, then one candidate made by a named operator (valid, break-grammar, unknown-method, routes-list = declared through Routes(path, list) with well- and ill-formed comma lists, repeat, repeat-short-form, plain-after-optional, optional-after-plain, dup-bind-across, dup-bind-inside, inner-optional, inner-empty, second-mid-matchall, matchall-clash, bad-expression, single-optional, metachar-literal), then requests built from instances of every accepted route, then optionally 1..2 further well-formed registrations that conflict with nothing and requests for them and for the earlier routes. " +
+const rule = "case = a history: 0..5 registrations the statement obliges the router to accept, then one candidate made by a named operator (valid, break-grammar, unknown-method, routes-list = declared through Routes(path, list) with well- and ill-formed comma lists, question-sibling = siblings that differ in a '?' inside the expression or in the optional mark only, repeat, repeat-short-form, plain-after-optional, optional-after-plain, dup-bind-across, dup-bind-inside, inner-optional, inner-empty, second-mid-matchall, matchall-clash, bad-expression, single-optional, metachar-literal), then requests built from instances of every accepted route, then optionally 1..2 further well-formed registrations that conflict with nothing and requests for them and for the earlier routes. " +
 	"Oracle: the registration validity model (MUST_REJECT / MUST_ACCEPT / EITHER from the clauses of C08) against 'did Flame.Route panic' and 'did route.AddRoute fail'; accepted routes must serve all their instances (long and short form) through a route that admits them - the reference matcher's winner; no request may panic whatever happened before. " +
 	"non-trivial = a MUST_REJECT candidate after >=1 accepted route, or an accepted candidate that is optional, match-all, has a user group or a metacharacter literal; distinct by case text"
 
@@ -397,7 +397,7 @@ func show(regs []rt.Reg) string {
 // ---- generator -----------------------------------------------------------------
 
 var ops = []string{
-	"valid", "valid", "valid", "break-grammar", "unknown-method", "routes-list", "repeat", "repeat-short-form", "plain-after-optional",
+	"valid", "valid", "valid", "break-grammar", "unknown-method", "routes-list", "question-sibling", "repeat", "repeat-short-form", "plain-after-optional",
 	"optional-after-plain", "dup-bind-across", "dup-bind-inside", "inner-optional", "inner-empty", "second-mid-matchall",
 	"matchall-clash", "bad-expression", "single-optional", "metachar-literal", "unclassified", "shared-mid-matchall",
 }
@@ -686,6 +686,37 @@ func genCase(t *rapid.T) Case {
 		d = model.Route{Segs: []model.Seg{{Elems: []model.Elem{{Lit: lit}, {Bind: "v"}}}}}
 		if rapid.Bool().Draw(t, "mtail") {
 			d.Segs = append(d.Segs, seg("t"))
+		}
+	case "question-sibling":
+		// two routes whose last segments differ in one "?" inside the expression
+		// (a quantifier, not the optional mark), or in the optional mark only
+		exprs := [][2]string{{"v?[0-9]+", "v[0-9]+"}, {"[a-z]+s?", "[a-z]+s"}, {"(en|fr)?", "(en|fr)"}}
+		e := exprs[rapid.IntRange(0, len(exprs)-1).Draw(t, "qe")]
+		mk := func(expr string, optional bool) model.Route {
+			return model.Route{Segs: []model.Seg{seg("zq"), {Optional: optional, Elems: []model.Elem{{Params: []model.Param{{Name: "ver", Value: expr, IsRegex: true, Blanks: 1}}}}}}}
+		}
+		first := mk(e[0], false)
+		g := model.NewRegistrar()
+		ok := true
+		for _, p := range prefix {
+			for _, pm := range model.ExpandMethod(p.M) {
+				g.Add(pm, rt.Deriv(p.R))
+			}
+		}
+		if v, _ := g.Check("GET", first); v != model.MustAccept {
+			ok = false
+		}
+		if ok {
+			prefix = append(prefix, rt.Reg{M: "GET", R: first.Source()})
+			m = "GET"
+			switch rapid.IntRange(0, 2).Draw(t, "qk") {
+			case 0:
+				d = mk(e[1], false) // another expression: another route
+			case 1:
+				d = mk(e[0], true) // the same route with the optional mark: a duplicate
+			default:
+				d = mk(e[1], true)
+			}
 		}
 	case "unclassified":
 		switch rapid.IntRange(0, 3).Draw(t, "uk") {
